@@ -97,6 +97,99 @@ func rootIdent(e ast.Expr) *ast.Ident {
 	}
 }
 
+
+// globalKind classifies a package-level variable by what can be changed about it WITHOUT a syntactic write to its name:
+//   "value"  – a scalar, string, an array of those, or an error made by errors.New / fmt.Errorf: a copy is taken whenever
+//              it is used, so only the non-read uses listed in globalWrites can change it;
+//   "table"  – a slice or map of scalars/strings: read-only as long as it is only indexed, ranged over or measured
+//              (every other use is listed in globalWrites as an "escape");
+//   "ref"    – anything else (pointers, structs, interfaces, channels, funcs, sync types, nested containers, unknown).
+func scalarType(e ast.Expr) bool {
+	switch v := e.(type) {
+	case *ast.Ident:
+		switch v.Name {
+		case "int", "int8", "int16", "int32", "int64", "uint", "uint8", "uint16", "uint32", "uint64", "uintptr",
+			"float32", "float64", "complex64", "complex128", "string", "bool", "byte", "rune":
+			return true
+		}
+	case *ast.ParenExpr:
+		return scalarType(v.X)
+	case *ast.ArrayType:
+		return v.Len != nil && scalarType(v.Elt)
+	}
+	return false
+}
+
+func kindOfType(e ast.Expr) string {
+	if scalarType(e) {
+		return "value"
+	}
+	switch v := e.(type) {
+	case *ast.ArrayType:
+		if v.Len == nil && scalarType(v.Elt) {
+			return "table"
+		}
+	case *ast.MapType:
+		if scalarType(v.Key) && scalarType(v.Value) {
+			return "table"
+		}
+	}
+	return "ref"
+}
+
+func kindOfValue(e ast.Expr, consts map[string]bool) string {
+	switch v := e.(type) {
+	case *ast.BasicLit:
+		return "value"
+	case *ast.ParenExpr:
+		return kindOfValue(v.X, consts)
+	case *ast.UnaryExpr:
+		if v.Op == token.AND || v.Op == token.ARROW {
+			return "ref"
+		}
+		return kindOfValue(v.X, consts)
+	case *ast.BinaryExpr:
+		if kindOfValue(v.X, consts) == "value" && kindOfValue(v.Y, consts) == "value" {
+			return "value"
+		}
+		return "ref"
+	case *ast.Ident:
+		if v.Name == "true" || v.Name == "false" || consts[v.Name] {
+			return "value"
+		}
+		return "ref"
+	case *ast.SelectorExpr:
+		// a constant of another package of the library or of math (math.Pi, consts.X)
+		if x, ok := v.X.(*ast.Ident); ok && (x.Name == "math" || x.Name == "consts") {
+			return "value"
+		}
+		return "ref"
+	case *ast.CompositeLit:
+		if v.Type != nil {
+			return kindOfType(v.Type)
+		}
+		return "ref"
+	case *ast.CallExpr:
+		switch f := v.Fun.(type) {
+		case *ast.Ident:
+			if scalarType(f) && len(v.Args) == 1 { // conversion int64(…), float64(…)
+				return kindOfValue(v.Args[0], consts)
+			}
+		case *ast.SelectorExpr:
+			if x, ok := f.X.(*ast.Ident); ok {
+				if x.Name == "math" { // math.Pow, math.Sqrt … return float64
+					return "value"
+				}
+				if (x.Name == "errors" && f.Sel.Name == "New") || (x.Name == "fmt" && f.Sel.Name == "Errorf") {
+					return "value"
+				}
+			}
+		}
+		return "ref"
+	}
+	return "ref"
+}
+
 // localNames: names declared inside a function (params, results, receivers, :=, var, range) — a global with the same name
 // is shadowed there and uses of the name are not counted.
 func localNames(fn *ast.FuncDecl) map[string]bool {
@@ -154,8 +247,24 @@ func localNames(fn *ast.FuncDecl) map[string]bool {
 
 func genGlobals(pkgs []*pkgInfo, out string) {
 	var vars, writes []string
+	// exported package-level variables of every package of the library, for writes from another package (pkg.Var = …)
+	exported := map[string]map[string]bool{}
+	type gl struct{ kind string }
+	perPkg := map[string]map[string]gl{}
 	for _, p := range pkgs {
-		globals := map[string]bool{}
+		consts := map[string]bool{}
+		for _, f := range p.files {
+			for _, d := range f.Decls {
+				if gd, ok := d.(*ast.GenDecl); ok && gd.Tok == token.CONST {
+					for _, sp := range gd.Specs {
+						for _, n := range sp.(*ast.ValueSpec).Names {
+							consts[n.Name] = true
+						}
+					}
+				}
+			}
+		}
+		globals := map[string]gl{}
 		for _, f := range p.files {
 			for _, d := range f.Decls {
 				gd, ok := d.(*ast.GenDecl)
@@ -164,26 +273,71 @@ func genGlobals(pkgs []*pkgInfo, out string) {
 				}
 				for _, sp := range gd.Specs {
 					vs := sp.(*ast.ValueSpec)
-					for _, n := range vs.Names {
+					for i, n := range vs.Names {
 						if n.Name == "_" {
 							continue
 						}
-						globals[n.Name] = true
-						typ := ""
+						typ, kind := "", "ref"
 						if vs.Type != nil {
 							typ = exprStr(vs.Type)
+							kind = kindOfType(vs.Type)
+						} else if len(vs.Values) == len(vs.Names) {
+							typ = "= " + exprStr(vs.Values[i])
+							kind = kindOfValue(vs.Values[i], consts)
 						} else if len(vs.Values) > 0 {
 							typ = "= " + exprStr(vs.Values[0])
 						}
-						vars = append(vars, fmt.Sprintf("(%s, %s, %s)", leanStr(p.name), leanStr(n.Name), leanStr(typ)))
+						globals[n.Name] = gl{kind}
+						if ast.IsExported(n.Name) {
+							if exported[p.name] == nil {
+								exported[p.name] = map[string]bool{}
+							}
+							exported[p.name][n.Name] = true
+						}
+						vars = append(vars, fmt.Sprintf("(%s, %s, %s, %s)", leanStr(p.name), leanStr(n.Name), leanStr(kind), leanStr(typ)))
 					}
 				}
 			}
 		}
-		if len(globals) == 0 {
-			continue
+		perPkg[p.name] = globals
+	}
+	for _, p := range pkgs {
+		globals := perPkg[p.name]
+		// a package-level initialiser that mentions a table aliases it
+		for _, f := range p.files {
+			for _, d := range f.Decls {
+				gd, ok := d.(*ast.GenDecl)
+				if !ok || gd.Tok != token.VAR {
+					continue
+				}
+				for _, sp := range gd.Specs {
+					for _, val := range sp.(*ast.ValueSpec).Values {
+						ast.Inspect(val, func(n ast.Node) bool {
+							if id, ok := n.(*ast.Ident); ok && globals[id.Name].kind == "table" {
+								pos := fset.Position(id.Pos())
+								writes = append(writes, fmt.Sprintf("(%s, %s, %s)", leanStr(p.name), leanStr(id.Name),
+									leanStr(fmt.Sprintf("escape %s:%d in a package-level initialiser", filepath.Base(pos.Filename), pos.Line))))
+							}
+							return true
+						})
+					}
+				}
+			}
 		}
 		for _, f := range p.files {
+			// import names of library packages in this file, for pkg.Var writes
+			imports := map[string]string{}
+			for _, im := range f.Imports {
+				path := strings.Trim(im.Path.Value, "\"")
+				base := path[strings.LastIndex(path, "/")+1:]
+				name := base
+				if im.Name != nil {
+					name = im.Name.Name
+				}
+				if exported[base] != nil {
+					imports[name] = base
+				}
+			}
 			for _, d := range f.Decls {
 				fn, ok := d.(*ast.FuncDecl)
 				if !ok || fn.Body == nil {
@@ -192,17 +346,72 @@ func genGlobals(pkgs []*pkgInfo, out string) {
 				locals := localNames(fn)
 				isGlobal := func(e ast.Expr) (string, bool) {
 					id := rootIdent(e)
-					if id == nil || !globals[id.Name] || locals[id.Name] {
+					if id == nil || locals[id.Name] {
 						return "", false
 					}
-					return id.Name, true
+					if _, ok := globals[id.Name]; ok {
+						return id.Name, true
+					}
+					// pkg.Var of another package of the library
+					if pkg, ok := imports[id.Name]; ok {
+						x := e
+						for {
+							switch v := x.(type) {
+							case *ast.SelectorExpr:
+								if xi, ok := v.X.(*ast.Ident); ok && xi == id {
+									if exported[pkg][v.Sel.Name] {
+										return pkg + "." + v.Sel.Name, true
+									}
+									return "", false
+								}
+								x = v.X
+								continue
+							case *ast.IndexExpr:
+								x = v.X
+								continue
+							case *ast.StarExpr:
+								x = v.X
+								continue
+							case *ast.ParenExpr:
+								x = v.X
+								continue
+							}
+							break
+						}
+					}
+					return "", false
 				}
 				site := func(n ast.Node, what string) string {
 					pos := fset.Position(n.Pos())
 					return fmt.Sprintf("%s %s:%d in %s", what, filepath.Base(pos.Filename), pos.Line, fn.Name.Name)
 				}
+				// uses of a table that keep it read-only: g[i] (read or, if written, reported below), len(g), cap(g), range g
+				allowed := map[*ast.Ident]bool{}
 				ast.Inspect(fn.Body, func(n ast.Node) bool {
 					switch v := n.(type) {
+					case *ast.IndexExpr:
+						if id, ok := v.X.(*ast.Ident); ok {
+							allowed[id] = true
+						}
+					case *ast.CallExpr:
+						if f, ok := v.Fun.(*ast.Ident); ok && (f.Name == "len" || f.Name == "cap") && len(v.Args) == 1 {
+							if id, ok := v.Args[0].(*ast.Ident); ok {
+								allowed[id] = true
+							}
+						}
+					case *ast.RangeStmt:
+						if id, ok := v.X.(*ast.Ident); ok {
+							allowed[id] = true
+						}
+					}
+					return true
+				})
+				ast.Inspect(fn.Body, func(n ast.Node) bool {
+					switch v := n.(type) {
+					case *ast.Ident:
+						if globals[v.Name].kind == "table" && !locals[v.Name] && !allowed[v] {
+							writes = append(writes, fmt.Sprintf("(%s, %s, %s)", leanStr(p.name), leanStr(v.Name), leanStr(site(v, "escape"))))
+						}
 					case *ast.AssignStmt:
 						if v.Tok != token.DEFINE {
 							for _, l := range v.Lhs {
@@ -223,8 +432,16 @@ func genGlobals(pkgs []*pkgInfo, out string) {
 						}
 					case *ast.CallExpr:
 						if sel, ok := v.Fun.(*ast.SelectorExpr); ok {
-							if g, ok := isGlobal(sel.X); ok {
-								writes = append(writes, fmt.Sprintf("(%s, %s, %s)", leanStr(p.name), leanStr(g), leanStr(site(v, "method call "+sel.Sel.Name))))
+							if id, ok := sel.X.(*ast.Ident); !ok || imports[id.Name] == "" || locals[id.Name] {
+								// a `value` has no method that changes it (only `Error()` of an errors.New value exists)
+								if g, ok := isGlobal(sel.X); ok && globals[g].kind != "value" {
+									writes = append(writes, fmt.Sprintf("(%s, %s, %s)", leanStr(p.name), leanStr(g), leanStr(site(v, "method call "+sel.Sel.Name))))
+								}
+							}
+						}
+						if f, ok := v.Fun.(*ast.Ident); ok && (f.Name == "delete" || f.Name == "clear" || f.Name == "copy") && len(v.Args) > 0 {
+							if g, ok := isGlobal(v.Args[0]); ok {
+								writes = append(writes, fmt.Sprintf("(%s, %s, %s)", leanStr(p.name), leanStr(g), leanStr(site(v, f.Name))))
 							}
 						}
 					case *ast.RangeStmt:
@@ -245,9 +462,9 @@ func genGlobals(pkgs []*pkgInfo, out string) {
 	}
 	var sb strings.Builder
 	sb.WriteString("/- GENERATED by /verif/extract from the Go source of the repository — do not edit. -/\nnamespace SpatialId.Gen\n\n")
-	sb.WriteString("/-- every package-level `var` of the library: (package, name, type or initialiser) -/\n")
-	sb.WriteString("def globals : List (String × String × String) := [\n  " + strings.Join(vars, ",\n  ") + "]\n\n")
-	sb.WriteString("/-- every non-read use of a package-level `var` inside a function: assignment (also through a field, index or\npointer), increment or decrement, address taken, method call on it — (package, variable, site) -/\n")
+	sb.WriteString("/-- every package-level `var` of the library: (package, name, kind, type or initialiser).  Kind `value`: a scalar,\nstring, array of those or an `errors.New` value — changed only by a non-read use of its name; `table`: a slice or map of\nscalars — read-only while it is only indexed, ranged over or measured (any other use is an `escape` in `globalWrites`);\n`ref`: anything else (pointer, struct, interface, channel, func, sync type, nested container, unknown) -/\n")
+	sb.WriteString("def globals : List (String × String × String × String) := [\n  " + strings.Join(vars, ",\n  ") + "]\n\n")
+	sb.WriteString("/-- every non-read use of a package-level `var` inside a function: assignment (also through a field, index or\npointer, also `pkg.Var` from another package), increment or decrement, address taken, method call on it, `delete`/`clear`/`copy`\ninto it, and every use of a `table` other than indexing, `len`, `cap`, `range` — (package, variable, site) -/\n")
 	sb.WriteString("def globalWrites : List (String × String × String) := [\n  " + strings.Join(writes, ",\n  ") + "]\n\nend SpatialId.Gen\n")
 	os.WriteFile(filepath.Join(out, "Globals.lean"), []byte(sb.String()), 0o644)
 }
